@@ -76,6 +76,12 @@ def set_torques(g, rng, Tscale):
     Tl = rng.choice([0.0, rng.uniform(-1, 1) * Tscale, rng.uniform(-1, 1) * Tscale])
     Td = rng.choice([0.0, rng.uniform(-1, 1) * Tscale, rng.uniform(-1, 1) * Tscale])
     ul, ud = rng.choice(SI.units('Torque')), rng.choice(SI.units('Torque'))
+    old_l, old_d = getattr(g, 'load_torque', None), getattr(g, 'driving_torque', None)
+    if old_l is not None and old_d is not None and rng.random() < 0.35:
+        # a gear evaluated before gets the same NUMBERS again, in other units (another torque altogether)
+        ul, ud = rng.choice([u for u in SI.units('Torque') if u != old_l.unit]), rng.choice([u for u in SI.units('Torque') if u != old_d.unit])
+        g.load_torque, g.driving_torque = U().Torque(old_l.value, ul), U().Torque(old_d.value, ud)
+        return SI.si(g.load_torque), SI.si(g.driving_torque)
     g.load_torque = U().Torque(SI.from_si('Torque', Tl, ul), ul)
     g.driving_torque = U().Torque(SI.from_si('Torque', Td, ud), ud)
     return SI.si(g.load_torque), SI.si(g.driving_torque)
